@@ -512,6 +512,7 @@ func (v *AttVerdict) receiptsElem(method string, res any, asked uint64, askedKno
 		v.must(method, "undecodable")
 		return
 	}
+	var firstBlock *AttBlock
 	for xi, x := range arr {
 		it, ok := x.(map[string]any)
 		if !ok {
@@ -522,8 +523,11 @@ func (v *AttVerdict) receiptsElem(method string, res any, asked uint64, askedKno
 		if !ok {
 			continue
 		}
-		if askedKnown && b.Num != asked {
+		if (askedKnown && b.Num != asked) || (firstBlock != nil && b != firstBlock) {
 			v.note(method, "item-names-other-block")
+		}
+		if firstBlock == nil {
+			firstBlock = b
 		}
 		rc := map[string]string{}
 		bad := false
@@ -551,6 +555,7 @@ func (v *AttVerdict) receiptsElem(method string, res any, asked uint64, askedKno
 			continue
 		}
 		tx := b.tx(txi)
+		rc["#logs"] = fmt.Sprint(logs) // receipts with different log lists are different receipts
 		for _, o := range tx.Rcpts {
 			if fmt.Sprint(o) != fmt.Sprint(rc) {
 				tx.RcptAmbiguous = true
@@ -660,6 +665,7 @@ func (v *AttVerdict) traceElem(method string, res any, asked uint64, askedKnown 
 	if len(arr) == 0 {
 		v.note(method, "empty-trace-result")
 	}
+	var firstBlock *AttBlock
 	for xi, x := range arr {
 		it, ok := x.(map[string]any)
 		if !ok {
@@ -686,8 +692,11 @@ func (v *AttVerdict) traceElem(method string, res any, asked uint64, askedKnown 
 		if !ok {
 			continue
 		}
-		if askedKnown && b.Num != asked {
+		if (askedKnown && b.Num != asked) || (firstBlock != nil && b != firstBlock) {
 			v.note(method, "item-names-other-block")
+		}
+		if firstBlock == nil {
+			firstBlock = b
 		}
 		tx := b.tx(txi)
 		if th != "" {
